@@ -462,6 +462,12 @@ pub fn gen_history(rng: &mut Rng, dir: &str, max_steps: u64) -> Vec<String> {
 
 // ------------------------------------------------------------------ C32
 
+/// call site a reopen problem is attributed to: the nesting counter left non-zero (log never
+/// cleared again) or the in-memory state that is not reloaded after a failed write
+fn site(stuck: bool) -> &'static str {
+    if stuck { "Storage::end_transaction" } else { "DbImpl::transaction_mut" }
+}
+
 /// ops of a C32 case: steps, with one `fault <k> once|persist` line before the step it hits, `close` last.
 pub fn run_fault_case(out: &mut Out, ro: &mut Reopener, case: u64, steps: &[String]) {
     let path = format!("{}/case.agdb", ro.dir);
@@ -483,6 +489,7 @@ pub fn run_fault_case(out: &mut Out, ro: &mut Reopener, case: u64, steps: &[Stri
     let mut fired_any = false;
     let mut case_text = String::new();
     let mut after_fault = 0;
+    let mut stuck = false;
     for l in steps {
         let line = out.ops.len();
         let what = l.split(" | ").next().unwrap_or(l).to_string();
@@ -530,7 +537,7 @@ pub fn run_fault_case(out: &mut Out, ro: &mut Reopener, case: u64, steps: &[Stri
                                 out.violation(
                                     case,
                                     line,
-                                    "C32/later-work-lost-after-reopen/Storage::end_transaction",
+                                    &format!("C32/later-work-lost-after-reopen/{}", site(stuck)),
                                     "state after close+reopen must equal the in-process state before close",
                                     &short(&before_close.text),
                                     &short(&dmp.text),
@@ -541,7 +548,7 @@ pub fn run_fault_case(out: &mut Out, ro: &mut Reopener, case: u64, steps: &[Stri
                             out.violation(
                                 case,
                                 line,
-                                "C32/unreadable-after-reopen/Storage::end_transaction",
+                                &format!("C32/unreadable-after-reopen/{}", site(stuck)),
                                 "the file must open and read after a failed write followed by successful queries",
                                 "opens and reads",
                                 &format!("{}: {}", other.letter(), short(&other.text())),
@@ -561,16 +568,18 @@ pub fn run_fault_case(out: &mut Out, ro: &mut Reopener, case: u64, steps: &[Stri
                 }
                 let same = (reopened.text() == before_close.text) as u8;
                 let body: String = trace.chars().filter(|c| *c != 'f').collect();
-                out.emit(
-                    &format!("close | {res} 0 {}", rle(&body)),
-                    &format!(
+                // after a fired fault the reopen outcome is judged by the oracle only
+                let out_line = if fired_any {
+                    format!("{res} trace=* walend=* reopen=*")
+                } else {
+                    format!(
                         "{res} trace={} walend={} reopen={}{same}",
                         rle(&trace),
                         if wal.is_empty() { 'e' } else { 'n' },
                         reopened.letter()
-                    ),
-                    None,
-                );
+                    )
+                };
+                out.emit(&format!("close | {res} 0 {}", rle(&body)), &out_line, None);
             }
             _ => {
                 let Some(step) = Step::parse(&what) else {
@@ -600,14 +609,12 @@ pub fn run_fault_case(out: &mut Out, ro: &mut Reopener, case: u64, steps: &[Stri
                 let res = match res {
                     Ok(s) => s,
                     Err(b) => {
-                        out.violation(
-                            case,
-                            line,
-                            &format!("C32/panic-in-query/{}", b.site()),
-                            "query must not panic",
-                            "result or error",
-                            &b.line(),
-                        );
+                        let key = if fired_any || fired {
+                            "C32/panic-after-failed-write/DbImpl::transaction_mut".to_string()
+                        } else {
+                            format!("C32/panic-in-query/{}", b.site())
+                        };
+                        out.violation(case, line, &key, "query must not panic", "result or error", &b.line());
                         b.line()
                     }
                 };
@@ -666,13 +673,14 @@ pub fn run_fault_case(out: &mut Out, ro: &mut Reopener, case: u64, steps: &[Stri
                             out.violation(
                                 case,
                                 line,
-                                "C32/later-query-differs/DbImpl::transaction_mut",
+                                "C32/failed-query-has-effect/DbImpl::transaction_mut",
                                 "queries after a failed write must behave as if the failed query had not been issued",
                                 &format!("{tr} {}", short(&td.text)),
                                 &format!("{res} {}", short(&post.text)),
                             );
                         }
                         if !wal_after {
+                            stuck = true;
                             out.violation(
                                 case,
                                 line,
